@@ -595,7 +595,7 @@ class QubitCircuit:
 
         for gate in self.gates:
             if gate.name in ("X", "Y", "Z"):
-                qc_temp.gates.append(Gate("GLOBALPHASE", arg_value=np.pi / 2))
+                temp_resolved.append(Gate("GLOBALPHASE", arg_value=np.pi / 2))
                 gate = Gate(
                     "R" + gate.name, targets=gate.targets, arg_value=np.pi
                 )
